@@ -2872,4 +2872,112 @@ theorem C18_case_temporary_not_fresh_witness :
   decide
 
 
+/-! ## the entity part of the module is a permutation of the entities -/
+
+namespace EntityOrder
+
+/-- what one `SCOPE_dfs` call keeps: no class twice, only entities of the scope, nothing that is on the recursion stack -/
+structure Inv (es : List Entity) (stack out : List String) : Prop where
+  nodup : out.Nodup
+  defined : ∀ x ∈ out, (find es x).isSome
+  offStack : ∀ x ∈ out, x ∉ stack
+
+theorem dfs_inv (es : List Entity) :
+    ∀ (f : Nat) (stack out : List String) (n : String) (out' : List String),
+      Inv es stack out → dfs es f stack out n = some out' → Inv es stack out' := by
+  intro f
+  induction f with
+  | zero => intro stack out n out' _ h; simp [dfs] at h
+  | succ f ih =>
+    intro stack out n out' hi h
+    simp only [dfs] at h
+    by_cases hm : n ∈ out ∨ n ∈ stack
+    · rw [if_pos hm] at h; cases h; exact hi
+    · rw [if_neg hm] at h
+      cases hf : find es n with
+      | none => rw [hf] at h; cases h; exact hi
+      | some e =>
+        rw [hf] at h
+        simp only [Option.map_eq_some_iff] at h
+        obtain ⟨o, hfold, rfl⟩ := h
+        have hi0 : Inv es (n :: stack) out :=
+          ⟨hi.nodup, hi.defined, fun x hx hxs => by
+            rcases List.mem_cons.mp hxs with rfl | hxs
+            · exact hm (Or.inl hx)
+            · exact hi.offStack x hx hxs⟩
+        have loop : ∀ (ps : List String) (o0 o1 : List String), Inv es (n :: stack) o0 →
+            ps.foldlM (fun o p => dfs es f (n :: stack) o p) o0 = some o1 → Inv es (n :: stack) o1 := by
+          intro ps
+          induction ps with
+          | nil => intro o0 o1 h0 hh; simp at hh; subst hh; exact h0
+          | cons p ps ihp =>
+            intro o0 o1 h0 hh
+            simp only [List.foldlM_cons, Option.bind_eq_bind, Option.bind_eq_some_iff] at hh
+            obtain ⟨om, hcall, hrest⟩ := hh
+            exact ihp om o1 (ih (n :: stack) o0 p om h0 hcall) hrest
+        have hio := loop e.supers out o hi0 hfold
+        have hno : n ∉ o := fun hn => hio.offStack n hn List.mem_cons_self
+        refine ⟨?_, ?_, ?_⟩
+        · exact List.nodup_append.mpr ⟨hio.nodup, by simp, fun a ha b hb hab => by
+            simp at hb; subst hb; subst hab; exact hno ha⟩
+        · intro x hx
+          rcases List.mem_append.mp hx with hx | hx
+          · exact hio.defined x hx
+          · simp at hx; subst hx; simp [hf]
+        · intro x hx hxs
+          rcases List.mem_append.mp hx with hx | hx
+          · exact hio.offStack x hx (List.mem_cons_of_mem _ hxs)
+          · simp at hx; subst hx; exact hm (Or.inr hxs)
+
+theorem order_inv (es : List Entity) (fuel : Nat) (roots out : List String) (h : order es fuel roots = some out) :
+    Inv es [] out := by
+  unfold order at h
+  have loop : ∀ (rs : List String) (o0 o1 : List String), Inv es [] o0 →
+      rs.foldlM (fun o r => dfs es fuel [] o r) o0 = some o1 → Inv es [] o1 := by
+    intro rs
+    induction rs with
+    | nil => intro o0 o1 h0 hh; simp at hh; subst hh; exact h0
+    | cons r rs ihr =>
+      intro o0 o1 h0 hh
+      simp only [List.foldlM_cons, Option.bind_eq_bind, Option.bind_eq_some_iff] at hh
+      obtain ⟨om, hcall, hrest⟩ := hh
+      exact ihr om o1 (dfs_inv es fuel [] o0 r om h0 hcall) hrest
+  exact loop roots [] out { nodup := List.nodup_nil, defined := fun x hx => by simp at hx, offStack := fun x hx => by simp at hx } h
+
+end EntityOrder
+
+/-- **The entity part of the module is a permutation of the schema's entities**: for an acyclic schema whose entity names
+are distinct, and for every order in which the symbol table hands the entities to `SCOPE_dfs`, the classes are written in
+an order that contains every entity exactly once — none lost, none twice, nothing else — and (by
+`C18_entities_written_after_their_supertypes_total`) every class after the classes of its supertypes. -/
+theorem C18_entity_classes_are_a_permutation (es : List Entity) (hac : EntityOrder.Acyclic es)
+    (hnames : (es.map (·.name)).Nodup) (roots : List String) (hroots : roots.Perm (es.map (·.name))) :
+    ∃ out, EntityOrder.order es (es.length + 1) roots = some out ∧ out.Perm (es.map (·.name)) ∧ EntityOrder.Sorted es out := by
+  obtain ⟨out, ho, hsorted, hall⟩ := C18_entities_written_after_their_supertypes_total es hac roots
+  refine ⟨out, ho, ?_, hsorted⟩
+  have hinv := EntityOrder.order_inv es _ roots out ho
+  refine (List.perm_ext_iff_of_nodup hinv.nodup hnames).mpr ?_
+  intro x
+  constructor
+  · intro hx
+    have hd := hinv.defined x hx
+    cases hf : find es x with
+    | none => rw [hf] at hd; cases hd
+    | some e => exact EntityOrder.find_some_name_mem hf
+  · intro hx
+    have hr : x ∈ roots := hroots.mem_iff.mpr hx
+    obtain ⟨e, he, hn⟩ := List.mem_map.mp hx
+    have hfs : (find es x).isSome := by
+      unfold find
+      rw [List.find?_isSome]
+      exact ⟨e, he, by simp [hn]⟩
+    exact hall x hr hfs
+
+
+/-- the hypotheses are satisfiable (the diamond with an attribute on its left arm, roots in declaration order) -/
+example : ∃ out, EntityOrder.order diamondY (diamondY.length + 1) (diamondY.map (·.name)) = some out ∧
+    out.Perm (diamondY.map (·.name)) ∧ EntityOrder.Sorted diamondY out :=
+  C18_entity_classes_are_a_permutation diamondY diamondY_acyclic (by decide) _ (List.Perm.refl _)
+
+
 end StepModel.GenPy
